@@ -310,6 +310,45 @@ theorem at_most_one_save_wins (now : Int) (sch : Schema) (v : Int) (es : List En
       · exact Or.inl h
       · exact Or.inr (hrest x h)
 
+/-! ### 5b. SaveMulti is pointwise -/
+
+/-- SaveMulti reports one result per entity -/
+theorem save_multi_length (now : Int) (sch : Schema) (es : List Entity) (st : String → Option Key) :
+    (saveMulti now sch es st).2.length = es.length := by
+  induction es generalizing st with
+  | nil => rfl
+  | cons e r ih => simp [saveMulti, ih]
+
+/-- a batch does not touch the keys of entities that are not in it -/
+theorem save_multi_other_key (now : Int) (sch : Schema) (es : List Entity) (st : String → Option Key) (k : String)
+    (hk : ∀ e ∈ es, e.key ≠ k) : (saveMulti now sch es st).1 k = st k := by
+  induction es generalizing st with
+  | nil => rfl
+  | cons e r ih =>
+    simp only [saveMulti]
+    rw [ih _ (fun e' he' => hk e' (List.mem_cons_of_mem _ he'))]
+    have := hk e (List.mem_cons_self ..)
+    simp [Ne.symm this]
+
+/-- SAVEMULTI: the i-th result is exactly the result of Saving the i-th entity on the store as the
+earlier members left it — whatever happened to the members before it (refused or saved); with
+distinct keys: on what was stored for its key before the batch. So errs[i] is ErrVersionMismatch
+iff member i is stale, and a saved member's version is advanced, independently of the others. -/
+theorem save_multi_pointwise (now : Int) (sch : Schema) (pre post : List Entity) (e : Entity)
+    (st : String → Option Key) :
+    (saveMulti now sch (pre ++ e :: post) st).2[pre.length]? =
+      some (save now sch e ((saveMulti now sch pre st).1 e.key)).2 := by
+  induction pre generalizing st with
+  | nil => simp [saveMulti]
+  | cons p r ih =>
+    simp only [List.cons_append, saveMulti, List.length_cons, List.getElem?_cons_succ]
+    exact ih _
+
+theorem save_multi_pointwise_distinct (now : Int) (sch : Schema) (pre post : List Entity) (e : Entity)
+    (st : String → Option Key) (hd : ∀ p ∈ pre, p.key ≠ e.key) :
+    (saveMulti now sch (pre ++ e :: post) st).2[pre.length]? = some (save now sch e (st e.key)).2 := by
+  rw [save_multi_pointwise, save_multi_other_key now sch pre st e.key hd]
+
 /-! ### 6. round trip per converter kind -/
 
 def kindEq : FV → FV → Bool
